@@ -57,6 +57,19 @@ def alias_specs():
         {"k": "dict", "sp": "dict", "a": [S("str"), {"k": "list", "sp": "list", "a": [J("J3")]}]}]}))
     out.append(("J = tuple[J, ...] | None", {"k": "stralias", "name": "J4", "mod": 0, "a": [
         {"k": "optional", "sp": "Optional", "a": [{"k": "vtuple", "sp": "tuple", "a": [J("J4")]}]}]}))
+    # the same and further shapes as PEP 695 `type` statements: the value is a lazily evaluated expression, not text
+    L = lambda n, body: {"k": "stralias", "lazy": True, "name": n, "mod": 0, "a": [body]}  # noqa: E731
+    lst = lambda x: {"k": "list", "sp": "list", "a": [x]}  # noqa: E731
+    dct = lambda x: {"k": "dict", "sp": "dict", "a": [S("str"), x]}  # noqa: E731
+    out.append(("type J = dict[str, J | int]", L("L1", dct({"k": "union", "sp": "pipe", "a": [J("L1"), S("int")]}))))
+    out.append(("type J = list[J]", L("L2", lst(J("L2")))))
+    out.append(("type Rose = list[Rose] | int", L("L3", {"k": "union", "sp": "pipe", "a": [lst(J("L3")), S("int")]})))
+    out.append(("type Chain = dict[str, Chain] | None", L("L4", {"k": "optional", "sp": "pipe", "a": [dct(J("L4"))]})))
+    out.append(("type J = tuple[J, ...] | None", L("L5", {"k": "optional", "sp": "pipe", "a": [{"k": "vtuple", "sp": "tuple", "a": [J("L5")]}]})))
+    back = L("Back", {"k": "optional", "sp": "pipe", "a": [dct(J("Fwd"))]})
+    out.append(("type Fwd = list[Back] | int; type Back = dict[str, Fwd] | None", L("Fwd", {"k": "union", "sp": "pipe", "a": [lst(back), S("int")]})))
+    fwd = L("Fwd2", {"k": "union", "sp": "pipe", "a": [lst(J("Back2")), S("int")]})
+    out.append(("... rooted at Back", L("Back2", {"k": "optional", "sp": "pipe", "a": [dct(fwd)]})))
     return out
 
 
